@@ -107,7 +107,7 @@ func checkC03Document(p *Prog, r *Report) {
 	r.floor("top-level member stores", len(keys), 6)
 
 	// --- scenario evaluation
-	in := &interp{p: p, f: f, maxPaths: 400000}
+	in := &interp{p: p, f: f, maxPaths: 400000, inline: smallHelper}
 	if deep {
 		in.maxVisit = 3 // two included resources per path
 		in.maxPaths = 2000000
@@ -930,9 +930,34 @@ func checkC03Include(p *Prog, r *Report) {
 		return ok
 	}
 
+	// the scan of the primary data may live in a helper h(data, predicate) bool
+	// that answers true only after a match and false only after having compared
+	// the primary resource / every element of the primary collection
+	viaScanHelper := func(cond ssa.Value, truth bool) bool {
+		if truth {
+			return false
+		}
+		hc, ok := cond.(*ssa.Call)
+		if !ok {
+			return false
+		}
+		h := hc.Common().StaticCallee()
+		if h == nil || !smallHelper(h) {
+			return false
+		}
+		di, pi, ok := dataScanHelper(p, h)
+		if !ok || di >= len(hc.Common().Args) || pi >= len(hc.Common().Args) {
+			return false
+		}
+		base, fl, ok := fieldLoad(hc.Common().Args[di])
+		return ok && fl == "Data" && base == ssa.Value(d) && hc.Common().Args[pi] == ssa.Value(pred)
+	}
 	// (a) primary resource
 	ga := mustPassEdge(f, target, func(cond ssa.Value, truth bool) bool {
 		if okOf(cond, "Resource") && !truth {
+			return true
+		}
+		if viaScanHelper(cond, truth) {
 			return true
 		}
 		return sameFalse(cond, truth, func(a ssa.Value) bool { return valOf(a, "Resource") })
@@ -1044,13 +1069,181 @@ func checkC03Include(p *Prog, r *Report) {
 		if okOf(cond, "Resource") && truth {
 			return true
 		}
+		if viaScanHelper(cond, truth) {
+			return true
+		}
 		return exhausted("collection")(cond, truth)
 	})
 	r.decide(gb, "C03.include-guards", "Include:primary-collection", p.pos(appStore.Pos()), "every element of a primary collection (of any implementation) compared before appending", "a resource can be included although it is an element of the primary collection: the traversal is skipped on some path (for instance for collections without a type)")
 	// (c) included
 	gc := mustPassEdge(f, target, exhausted("included"))
 	r.decide(gc, "C03.include-guards", "Include:already-included", p.pos(appStore.Pos()), "every already included resource compared before appending", "a resource can be included twice")
-	r.floor("traversal loops in Include", len(loops), 2)
+	r.floor("traversal loops in Include", len(loops), 1)
+}
+
+// dataScanHelper: h(…data any…, …match func(Resource) bool…) bool answers
+// whether the primary data is, or contains, a resource for which match holds:
+// it returns true only right after match answered true, hands on match's own
+// answer for a primary Resource, and returns the constant false only when data
+// is no Resource and either no Collection or a Collection all of whose
+// elements At(0..Len()-1) were passed to match. Returns the parameter indices.
+func dataScanHelper(p *Prog, h *ssa.Function) (dataIdx, predIdx int, ok bool) {
+	dataIdx, predIdx = -1, -1
+	for i, prm := range h.Params {
+		switch t := prm.Type().Underlying().(type) {
+		case *types.Interface:
+			if t.NumMethods() == 0 && dataIdx < 0 {
+				dataIdx = i
+			}
+		case *types.Signature:
+			if predIdx < 0 {
+				predIdx = i
+			}
+		}
+	}
+	if dataIdx < 0 || predIdx < 0 || h.Signature.Results().Len() != 1 {
+		return 0, 0, false
+	}
+	data, pred := h.Params[dataIdx], h.Params[predIdx]
+	isPredCall := func(v ssa.Value) (*ssa.Call, bool) {
+		c, ok := v.(*ssa.Call)
+		if !ok || c.Common().Value != ssa.Value(pred) {
+			return nil, false
+		}
+		return c, true
+	}
+	assertOf := func(v ssa.Value, iface string, idx int) bool {
+		ex, ok := v.(*ssa.Extract)
+		if !ok || ex.Index != idx {
+			return false
+		}
+		ta, ok := ex.Tuple.(*ssa.TypeAssert)
+		return ok && ta.CommaOk && ta.X == ssa.Value(data) && fmtTypeString(ta.AssertedType) == "jsonapi."+iface
+	}
+	// the collection loop
+	var collHeader *ssa.BasicBlock
+	collOK := false
+	for _, b := range h.Blocks {
+		ifi, isIf := b.Instrs[len(b.Instrs)-1].(*ssa.If)
+		if !isIf {
+			continue
+		}
+		bo, isB := ifi.Cond.(*ssa.BinOp)
+		if !isB || bo.Op != token.LSS {
+			continue
+		}
+		loop := naturalLoop(b)
+		if loop == nil {
+			continue
+		}
+		c, _ := callOf(bo.Y)
+		if c == nil || !c.Common().IsInvoke() || c.Common().Method.Name() != "Len" || !assertOf(c.Common().Value, "Collection", 0) {
+			continue
+		}
+		col, idx := c.Common().Value, bo.X
+		elemOK := func(a ssa.Value) bool {
+			ac, _ := callOf(a)
+			return ac != nil && ac.Common().IsInvoke() && ac.Common().Method.Name() == "At" && ac.Common().Value == col && ac.Common().Args[0] == idx
+		}
+		good := true
+		if st, sp := inductionOf(idx, loop); st != 0 || sp != 1 {
+			good = false
+		}
+		for x := range loop {
+			for _, s2 := range x.Succs {
+				if loop[s2] || x == b {
+					continue
+				}
+				xi, isIf2 := x.Instrs[len(x.Instrs)-1].(*ssa.If)
+				ret, isRet := s2.Instrs[len(s2.Instrs)-1].(*ssa.Return)
+				matched := false
+				if isIf2 && x.Succs[0] == s2 {
+					if pc, ok := isPredCall(xi.Cond); ok && elemOK(pc.Common().Args[0]) {
+						matched = true
+					}
+				}
+				retTrue := false
+				if isRet && len(s2.Instrs) == 1 {
+					if cb, isC := constBool(ret.Results[0]); isC && cb {
+						retTrue = true
+					}
+				}
+				if !(matched && retTrue) {
+					good = false
+				}
+			}
+		}
+		if good {
+			body := b.Succs[0]
+			if !mustPassEdgeFrom(body, b, func(cond ssa.Value, truth bool) bool {
+				if truth {
+					return false
+				}
+				pc, ok := isPredCall(cond)
+				return ok && elemOK(pc.Common().Args[0])
+			}) {
+				good = false
+			}
+		}
+		collHeader, collOK = b, good
+	}
+	n := 0
+	for _, b := range h.Blocks {
+		ret, isRet := b.Instrs[len(b.Instrs)-1].(*ssa.Return)
+		if !isRet {
+			continue
+		}
+		n++
+		v := ret.Results[0]
+		if cb, isC := constBool(v); isC {
+			if cb {
+				// true only after a match: decided with the loop exits above, or
+				// directly behind a predicate call
+				behind := mustPassEdge(h, b, func(cond ssa.Value, truth bool) bool {
+					_, ok := isPredCall(cond)
+					return ok && truth
+				})
+				if !behind {
+					return 0, 0, false
+				}
+				continue
+			}
+			// constant false: data is no Resource, and no Collection or the loop was exhausted
+			notRes := mustPassEdge(h, b, func(cond ssa.Value, truth bool) bool {
+				if assertOf(cond, "Resource", 1) && !truth {
+					return true
+				}
+				if pc, ok := isPredCall(cond); ok && !truth && assertOf(pc.Common().Args[0], "Resource", 0) {
+					return true
+				}
+				return false
+			})
+			collDone := mustPassEdge(h, b, func(cond ssa.Value, truth bool) bool {
+				if assertOf(cond, "Collection", 1) && !truth {
+					return true
+				}
+				if assertOf(cond, "Resource", 1) && truth {
+					return true
+				}
+				if collOK && collHeader != nil && !truth {
+					if ifi := collHeader.Instrs[len(collHeader.Instrs)-1].(*ssa.If); ifi.Cond == cond {
+						return true
+					}
+				}
+				return false
+			})
+			if !notRes || !collDone {
+				return 0, 0, false
+			}
+			continue
+		}
+		// match's own answer for the primary resource
+		pc, ok := isPredCall(v)
+		if !ok || !assertOf(pc.Common().Args[0], "Resource", 0) {
+			return 0, 0, false
+		}
+	}
+	return dataIdx, predIdx, n > 0
 }
 
 // inductionOf: idx is phi [c, idx+k] of the loop (or phi+k for the rotated
